@@ -340,7 +340,15 @@ for f in files:
     for ln, line in kept:
         for kind, pat in EFFECT_PATTERNS:
             if re.search(pat, line):
-                effects.append((f, ln, kind, line.strip()[:100].replace('"', "'").replace("\\", "/")))
+                k = kind
+                if kind == "static_item":
+                    # immutable static of plain integers is data, anything else is not classified as benign
+                    k = "static_pod" if re.search(r"static\s+\w+\s*:\s*\[\s*(u8|u16|u32|u64|i32|usize)\s*;\s*\d+\s*\]\s*=", line) else "static_other"
+                if kind == "unsafe":
+                    k = "unsafe_ffi_wrapper" if (f == "lib.rs" and re.search(r"pub unsafe extern \"C\" fn Wrapper(Compress|Decompress)Zip\(", line)) else "unsafe_other"
+                effects.append((f, ln, k, line.strip()[:100].replace('"', "'").replace("\\", "/")))
+        if re.search(r"\bDefaultBoxed\b|default_boxed\(\)", line) and not re.search(r"^\s*use\b", line):
+            effects.append((f, ln, "default_boxed", line.strip()[:100].replace('"', "'").replace("\\", "/")))
 
 # ----------------------------------------------------------------------------- fingerprints
 def fn_fingerprints(fname):
